@@ -65,7 +65,7 @@ class Scenario(Session):
         op = Op(name, "pub", qos=qos, topic=topic, payload=payload, retain=retain, props=ps, conn_at_init=self.conn, caps_at_init=dict(self.caps) if self.connected else None)
         op.t_init = self.now; op.idx = len(self.tr)
         self.ops[name] = op
-        self.do(f"pub {name} {qos} {retain} {topic.hex()} {payload.hex()} {ref.plist_text(ps)}")
+        self.do(self.at() + f"pub {name} {qos} {retain} {topic.hex()} {payload.hex()} {ref.plist_text(ps)}")
         self.count(f"pub-qos{qos}")
 
     def api_sub(self):
@@ -76,8 +76,12 @@ class Scenario(Session):
         if self.rng.random() < 0.2: ps.append((0x0B, self.rng.choice([1, 127, 268435455])))
         op = Op(name, "sub", topics=ts, props=ps, conn_at_init=self.conn, caps_at_init=dict(self.caps) if self.connected else None); op.t_init = self.now; op.idx = len(self.tr)
         self.ops[name] = op
-        self.do(f"sub {name} {ref.plist_text(ps)} {n} " + " ".join(f"{f.hex()} {o['qos']} {o['nl']} {o['rap']} {o['rh']}" for f, o in ts))
+        self.do(self.at() + f"sub {name} {ref.plist_text(ps)} {n} " + " ".join(f"{f.hex()} {o['qos']} {o['nl']} {o['rap']} {o['rh']}" for f, o in ts))
         self.count("sub")
+
+    def at(self):
+        """a quarter of the API calls are made from inside a completion handler running on the io_context (C05: never inline)"""
+        return "@" if self.rng.random() < 0.25 else ""
 
     def api_unsub(self):
         name = self.new_name("U")
@@ -85,7 +89,7 @@ class Scenario(Session):
         ps = self.rand_props("unsubscribe")
         op = Op(name, "unsub", topics=ts, props=ps); op.t_init = self.now; op.idx = len(self.tr)
         self.ops[name] = op
-        self.do(f"unsub {name} {ref.plist_text(ps)} {n} " + " ".join(f.hex() for f in ts))
+        self.do(self.at() + f"unsub {name} {ref.plist_text(ps)} {n} " + " ".join(f.hex() for f in ts))
         self.count("unsub")
 
     def api_recv(self):
@@ -244,7 +248,9 @@ class Scenario(Session):
         tag = f"B{self.bmsg}".encode()
         pid = None
         if qos:
-            pid = self.next_bpid; self.next_bpid = self.next_bpid % 65535 + 1
+            # like a real broker: the lowest identifier it has no exchange open for
+            used = {m["pid"] for m in self.bq}
+            pid = next(i for i in range(1, 65536) if i not in used)
         ps = [] if self.rng.random() < 0.6 else [(0x26, (b"bk", b"bv")), (0x03, b"text/plain")]
         if self.rng.random() < 0.2: ps.append((0x0B, self.rng.choice([1, 127, 128])))
         if qos:
@@ -287,7 +293,7 @@ class Scenario(Session):
             else:
                 acts.append(("drop", 12 if self.profile == "session" else 5))
                 if self.sub_ok or rng.random() < 0.1: acts.append(("bpub", 6))
-            if self.sid in self.write_pending and self.connected: acts.append(("wok", 30))
+            if self.sid in self.write_pending and self.connected: acts += [("wok", 30), ("early", 6)]
             if self.sid in self.read_pending and self.connected and self.broker_out: acts.append(("rx", 35))
             if self.held and self.connected: acts.append(("release", 6))
             if self.connected and self.profile != "session": acts.append(("stray", 4))
@@ -307,7 +313,8 @@ class Scenario(Session):
         elif a == "drop":
             # connection lost: partial delivery of the write in progress, then reconnect
             pk = self.write_pending.get(self.sid)
-            if pk is not None and rng.random() < 0.5:
+            already = pk is not None and any(w["result"] is None and w["pk"] == pk and w.get("early") for w in self.wlog)
+            if pk is not None and not already and rng.random() < 0.5:
                 k = rng.randint(0, len(pk))
                 for w in reversed(self.wlog):
                     if w["result"] is None and w["pk"] == pk: w["delivered"] = k; break
@@ -326,6 +333,8 @@ class Scenario(Session):
             self.broker_out += self.held.pop(0)
         elif a == "stray":
             self.stray_ack()
+        elif a == "early":
+            self.deliver_early(); self.count("early-delivery")
         self.handle_shutdown()
         return True
 
@@ -378,7 +387,7 @@ class Scenario(Session):
         self.ended = True
         name = self.new_name("D")
         rc = rng.choice([0, 4, 0x80, 0x98])
-        ps = [] if rng.random() < 0.5 else [(0x1F, b"bye"), (0x26, (b"k", b"v"))]
+        ps = rng.choice([[], [], [(0x1F, b"bye"), (0x26, (b"k", b"v"))], [(0x1F, b"a long reason string, longer than a small Maximum Packet Size")]])
         op = Op(name, "disc", rc=rc, props=ps, conn_at_init=self.conn, caps_at_init=dict(self.caps)); op.t_init = self.now; op.idx = len(self.tr)
         op.write_in_progress = self.sid in self.write_pending
         op.was_connected = self.connected
